@@ -654,7 +654,7 @@ def run(ctx):
         # (sharing through seen_envs, detached and early-detach), model Marsh/Code.lean vs real marshal / unmarshal
         cgstats = {"cases": 0, "skipped": 0, "oracle_fail": 0, "marshal_diffs": 0, "unmarshal_diffs": 0, "functions": 0, "funcdefs": 0,
                    "environments": 0, "funcdef_refs": 0, "funcenv_refs": 0, "max_funcdefs": 0, "with_symbolmap": 0, "with_sourcemap": 0,
-                   "with_bitset": 0, "with_subdefs": 0, "registry_values": 0, "bytes": 0}
+                   "with_bitset": 0, "with_subdefs": 0, "registry_values": 0, "bytes": 0, "fibers": 0, "fiber_frames": 0, "onstack_envs": 0}
         try:
             hxc = ctx.build.harness("asan", "c09codedesc", [os.path.join(H, "codedesc.c")])
         except BuildError as e:
@@ -711,6 +711,11 @@ def run(ctx):
                 cgstats["funcdef_refs"] += hexb.count("dc")      # rough: byte value of LB_FUNCDEF_REF
                 cgstats["funcenv_refs"] += hexb.count("db")
                 cgstats["registry_values"] += len(re.findall(r"\| G", secs[0]))
+                for fm in re.finditer(r"\| Y -?\d+ \d+ \d+ \d+ \d+ \S+ \S+ \S+ (\d+)", secs[0]):
+                    cgstats["fibers"] += 1
+                    cgstats["fiber_frames"] += int(fm.group(1))
+                if len(secs) > 2:
+                    cgstats["onstack_envs"] += len(re.findall(r"Es \d", secs[2]))
                 cgstats["bytes"] += len(hexb) // 2
                 if len(secs) > 1:
                     cgstats["with_symbolmap"] += len(re.findall(r" S [1-9]", secs[1]))
